@@ -333,10 +333,13 @@ type fnAn struct {
 	fn      *ssa.Function
 	facts   map[*ssa.BasicBlock][]cons
 	loadRep map[*ssa.UnOp]ssa.Value // canonical value for a load
-	reach   map[*ssa.BasicBlock]map[*ssa.BasicBlock]bool
-	inv     []cons                     // always empty: invariants are part of blockFacts (invAt)
-	invAt   map[*ssa.BasicBlock][]cons // loop header -> inductive invariants established there
-	pre     []cons                     // parameter facts that hold at every call site of the module
+	// memPhi: a load at the head of a join block whose location holds a different, known value on
+	// each incoming edge (one branch stored to it): what it reads per predecessor
+	memPhi map[*ssa.UnOp][]ssa.Value
+	reach  map[*ssa.BasicBlock]map[*ssa.BasicBlock]bool
+	inv    []cons                     // always empty: invariants are part of blockFacts (invAt)
+	invAt  map[*ssa.BasicBlock][]cons // loop header -> inductive invariants established there
+	pre    []cons                     // parameter facts that hold at every call site of the module
 }
 
 func isIntLike(t types.Type) (bits int, signed bool, ok bool) {
@@ -445,6 +448,50 @@ func (a *fnAn) proveAny(facts []cons, goals []lin, depth int) bool {
 				gs := make([]lin, len(goals))
 				for j := range goals {
 					gs[j] = goals[j].subst(at, pick.is)
+				}
+				if !a.proveAny(nf, gs, depth+1) {
+					all = false
+					break
+				}
+			}
+			if all {
+				return true
+			}
+		}
+	}
+	// a load at a join that reads a different known value on each incoming edge
+	for _, g := range goals {
+		for at := range g.c {
+			ld, ok := at.v.(*ssa.UnOp)
+			if !ok {
+				continue
+			}
+			vals, has := a.memPhi[ld]
+			if !has {
+				continue
+			}
+			all := true
+			for i, p := range ld.Block().Preds {
+				var by lin
+				switch at.k {
+				case akVal:
+					by = a.linOf(vals[i], 1)
+				case akLen:
+					by = a.lenOf(vals[i], 1)
+				case akCap:
+					by = a.capOf(vals[i], 1)
+				}
+				if !by.ok {
+					all = false
+					break
+				}
+				nf := append(substAll(facts, at, by), a.blockFacts(p)...)
+				if iff, okI := p.Instrs[len(p.Instrs)-1].(*ssa.If); okI && p.Succs[0] != p.Succs[1] {
+					nf = append(nf, a.condFacts(iff.Cond, p.Succs[0] == ld.Block())...)
+				}
+				gs := make([]lin, len(goals))
+				for j := range goals {
+					gs[j] = goals[j].subst(at, by)
 				}
 				if !a.proveAny(nf, gs, depth+1) {
 					all = false
@@ -722,12 +769,56 @@ func (a *fnAn) buildLoads() {
 		}
 		return best.load
 	}
+	a.memPhi = map[*ssa.UnOp][]ssa.Value{}
 	for _, l := range evs {
 		if l.load == nil {
 			continue
 		}
 		if v := resolve(l.key, l.ins, l.blk, l.idx, l.load.Type(), 0); v != nil {
 			a.loadRep[l.load] = v
+			continue
+		}
+		// a join: the location is resolved at the end of every predecessor, and nothing in this
+		// block in front of the load can have written it
+		if len(l.blk.Preds) < 2 || len(l.blk.Preds) > 4 {
+			continue
+		}
+		clean := true
+		for _, k := range evs {
+			if k.store != nil && k.blk == l.blk && k.idx < l.idx && overlap(k.key, l.key) {
+				clean = false
+			}
+		}
+		for _, k := range unknownStores {
+			if k.blk == l.blk && k.idx < l.idx && types.Identical(k.store.Val.Type(), l.load.Type()) {
+				clean = false
+			}
+		}
+		for _, k := range calls {
+			if k.blk == l.blk && k.idx < l.idx && callMayTouchKey(k.ins.(ssa.CallInstruction), l.key, overlap) {
+				clean = false
+			}
+		}
+		loopHead := false
+		for _, p := range l.blk.Preds {
+			if l.blk.Dominates(p) {
+				loopHead = true
+			}
+		}
+		if !clean || loopHead {
+			continue
+		}
+		var vals []ssa.Value
+		for _, p := range l.blk.Preds {
+			v := resolve(l.key, nil, p, len(p.Instrs), l.load.Type(), 0)
+			if v == nil {
+				vals = nil
+				break
+			}
+			vals = append(vals, v)
+		}
+		if vals != nil {
+			a.memPhi[l.load] = vals
 		}
 	}
 }
@@ -960,9 +1051,21 @@ func (a *fnAn) lenOf(v ssa.Value, depth int) lin {
 			return a.lenOf(x.X, depth+1)
 		}
 	case *ssa.Call:
+		if f := x.Call.StaticCallee(); f != nil && f.Pkg == nil && f.Origin() != nil && f.Origin().Pkg != nil {
+			// an instance of a generic function: slices.Grow adds capacity only (documented
+			// contract), slices.Clone copies the elements
+			if o := f.Origin(); o.Pkg.Pkg.Path() == "slices" && (o.Name() == "Grow" || o.Name() == "Clone") && len(x.Call.Args) >= 1 {
+				return a.lenOf(x.Call.Args[0], depth+1)
+			}
+		}
 		if f := x.Call.StaticCallee(); f != nil && f.Pkg != nil {
 			full := f.Pkg.Pkg.Path() + "." + f.Name()
 			if (full == "bytes.Clone" || full == "slices.Clone") && len(x.Call.Args) == 1 {
+				return a.lenOf(x.Call.Args[0], depth+1)
+			}
+			// generic instances are named slices.Clone[...] / slices.Grow[...]: Grow adds
+			// capacity only (documented contract), Clone copies the elements
+			if f.Pkg.Pkg.Path() == "slices" && (strings.HasPrefix(f.Name(), "Grow[") || strings.HasPrefix(f.Name(), "Clone[")) && len(x.Call.Args) >= 1 {
 				return a.lenOf(x.Call.Args[0], depth+1)
 			}
 			// encoding/binary's AppendUintN (documented contract: appends exactly N/8 bytes)
@@ -1535,6 +1638,46 @@ func (a *fnAn) computeInvariants() {
 				addCand(e.add(single(at), -1))
 			}
 		}
+		// conserved sums: one counter goes up by k while another goes down by k (a countdown that
+		// appends one element per turn): their sum stays what it was on entry
+		for i1, at1 := range h.phis {
+			for _, at2 := range h.phis[i1+1:] {
+				var init1, init2 lin
+				step1, step2 := int64(0), int64(0)
+				okPair := true
+				haveInit := false
+				for i, p := range h.b.Preds {
+					e1, e2 := a.phiEdge(at1, h.defs[at1], i), a.phiEdge(at2, h.defs[at2], i)
+					if !e1.ok || !e2.ok {
+						okPair = false
+						break
+					}
+					if h.b.Dominates(p) {
+						if len(e1.c) != 1 || e1.c[at1] != 1 || len(e2.c) != 1 || e2.c[at2] != 1 {
+							okPair = false
+							break
+						}
+						if (step1 != 0 && step1 != e1.k) || (step2 != 0 && step2 != e2.k) {
+							okPair = false
+							break
+						}
+						step1, step2 = e1.k, e2.k
+					} else {
+						if haveInit {
+							okPair = false
+							break
+						}
+						init1, init2, haveInit = e1, e2, true
+					}
+				}
+				if !okPair || !haveInit || step1 == 0 || step1 != -step2 {
+					continue
+				}
+				sum := single(at1).add(single(at2), 1).add(init1, -1).add(init2, -1)
+				addCand(sum)
+				addCand(sum.scale(-1))
+			}
+		}
 		// from all branch conditions in the function mentioning the phis
 		for _, b := range a.fn.Blocks {
 			if iff, ok := b.Instrs[len(b.Instrs)-1].(*ssa.If); ok {
@@ -1750,7 +1893,7 @@ func boundsAnalyse(fn *ssa.Function, fset *token.FileSet) []bSite {
 		var unp []string
 		relSet := map[string]bool{}
 		for gi, g := range goals {
-			if !a.prove(facts, g, 0) && !lift(fn, facts, g, 0) {
+			if !a.prove(facts, g, 0) && !lift(fn, facts, g, 0) && !a.proveAny(facts, []lin{g}, 0) {
 				ok = false
 				unp = append(unp, fmt.Sprint(gi))
 				for _, f := range facts {
